@@ -224,9 +224,18 @@ func (t *typeSet) Default() px.Type {
 
 func (t *typeSet) Equals(other interface{}, guard px.Guard) bool {
 	if ot, ok := other.(*typeSet); ok {
-		return t.name == ot.name && t.nameAuthority == ot.nameAuthority && t.pcoreURI == ot.pcoreURI && t.pcoreVersion.Equals(ot.pcoreVersion) && t.version.Equals(ot.version)
+		return t.name == ot.name && t.nameAuthority == ot.nameAuthority && t.pcoreURI == ot.pcoreURI &&
+			optVersionEquals(t.pcoreVersion, ot.pcoreVersion) && optVersionEquals(t.version, ot.version)
 	}
 	return false
+}
+
+// optVersionEquals compares two versions either of which may be absent (the version of a type set is optional)
+func optVersionEquals(a, b semver.Version) bool {
+	if a == nil || b == nil {
+		return a == nil && b == nil
+	}
+	return a.Equals(b)
 }
 
 func (t *typeSet) Generic() px.Type {
